@@ -478,6 +478,26 @@ pub fn build_cases(g: &Grammar, thorough: bool) -> Vec<Case> {
         // the same document with CRLF line ends
         out.push(Case { label: format!("{} + crlf", d.label), class: "crlf-document".into(), text: d.doc.text().replace('\n', "\r\n"), spec: None, parts: vec![] });
     }
+    // repeatable children of RECORD_LAYOUT that carry a position (the writer orders the children of a RECORD_LAYOUT by position)
+    {
+        let rl = g.elem("RECORD_LAYOUT").clone();
+        for r in rl.refs.iter().filter(|r| r.repeat && r.in_version(5)) {
+            let Some(ke) = g.get_elem(&r.tag) else { continue };
+            if !matches!(ke.items.first(), Some(Item::Single { name, .. }) if name == "position") {
+                continue;
+            }
+            for (arr, positions) in [("ascending", vec![3, 5]), ("equal", vec![4, 4]), ("descending", vec![5, 3]), ("descending-3", vec![5, 3, 4])] {
+                let mut gen = Gen::new(g);
+                let (mut doc, path) = gen.carrier_v("RECORD_LAYOUT", 5, 1);
+                for p in &positions {
+                    let mut c = gen.min_node(&r.tag, 5, 1);
+                    c.params[0].text = p.to_string();
+                    doc.root.at_mut(&path).children.push(c);
+                }
+                out.push(Case { label: format!("RECORD_LAYOUT with {} x {} at positions {positions:?}", positions.len(), r.tag), class: format!("position-order:{}:{}", r.tag, arr.split('-').next().unwrap()), text: doc.text(), spec: None, parts: vec![] });
+            }
+        }
+    }
     // layout at every gap of every carrier
     for d in &carriers {
         layout_cases(d, true, true, &mut out);
@@ -596,10 +616,15 @@ pub fn run(tier: &str) -> Run {
     }
     // models built through the API: every (parent, child) slot of the grammar, child once / twice,
     // sequences empty / filled, with and without sort_new_items before writing
-    let n_api = crate::gen_builders::N_SLOTS * 8;
+    // x value mode of the integer parameters: small positive decimal / negative resp. near the maximum, decimal / the same in
+    // hex notation / type minimum resp. maximum in hex notation (the writer emits bit patterns, the loader has to take them back)
+    let n_api = crate::gen_builders::N_SLOTS * 8 * 4;
     let api = par_map(
         n_api,
         &|j| {
+            let vmode = (j % 4) as u8;
+            let j = j / 4;
+            crate::gen_builders::set_mode(vmode);
             let slot = j / 8;
             let count = 1 + (j % 2);
             let seqlen = (j / 2) % 2 * 2;
@@ -613,7 +638,7 @@ pub fn run(tier: &str) -> Run {
             });
             match built {
                 Err(p) => (format!("api slot {slot}"), RT::Viol { oracle: "panic-build", what: p }),
-                Ok((label, f)) => (format!("{label} count={count} seqlen={seqlen} sort_new_items={sorted}"), roundtrip_model(&f)),
+                Ok((label, f)) => (format!("{label} count={count} seqlen={seqlen} sort_new_items={sorted} ints={}", ["small", "negative/large", "negative/large hex", "min/max hex"][vmode as usize]), roundtrip_model(&f)),
             }
         },
         &|j| {
@@ -767,7 +792,32 @@ pub fn run(tier: &str) -> Run {
                             } else if !t.starts_with("/* written by the harness */") || !t.ends_with(&f.write_to_string()) {
                                 RT::Viol { oracle: "text-differs", what: format!("file written with a banner is not banner + write_to_string(): {}", short(&t, 200)) }
                             } else {
-                                RT::Ok { bytes_t1: t.len() }
+                                // further save cycles with a banner: load the saved file, save it again with the banner; the
+                                // file must not change from the second save on
+                                let cyc = vcore::explore::guard(|| {
+                                    let mut texts = vec![t.clone()];
+                                    let mut cur = f2;
+                                    for _ in 0..3 {
+                                        cur.write(&path, Some("written by the harness")).map_err(|e| e.to_string())?;
+                                        texts.push(std::fs::read_to_string(&path).map_err(|e| e.to_string())?);
+                                        cur = a2lfile::load(&path, None, false).map_err(|e| e.to_string())?.0;
+                                    }
+                                    Ok::<_, String>((texts, cur))
+                                });
+                                let _ = std::fs::remove_file(&path);
+                                match cyc {
+                                    Err(p) => RT::Viol { oracle: "panic", what: p },
+                                    Ok(Err(e)) => RT::Viol { oracle: "reload-fails", what: format!("banner save cycles: {e}") },
+                                    Ok(Ok((texts, cur))) => {
+                                        if cur != f {
+                                            RT::Viol { oracle: "model-differs", what: "the model changes over save cycles with a banner".into() }
+                                        } else if texts[2] != texts[1] || texts[3] != texts[2] {
+                                            RT::Viol { oracle: "text-drifts", what: format!("file saved with a banner changes from cycle to cycle: {} -> {} -> {} -> {} bytes", texts[0].len(), texts[1].len(), texts[2].len(), texts[3].len()) }
+                                        } else {
+                                            RT::Ok { bytes_t1: t.len() }
+                                        }
+                                    }
+                                }
                             }
                         }
                     },
@@ -856,6 +906,8 @@ pub fn replay(v: &Value) -> Result<String, String> {
     }
     if let Some(j) = v["api_case"].as_u64() {
         let j = j as usize;
+        crate::gen_builders::set_mode((j % 4) as u8);
+        let j = j / 4;
         let (_, mut f) = crate::gen_builders::build_slot(j / 8, 1 + (j % 2), (j / 2) % 2 * 2);
         if (j / 4) % 2 == 1 {
             f.sort_new_items();
